@@ -274,7 +274,29 @@ def _k4(ctx: Context, ss, ser, des) -> None:
                     up = x.slice.upper
                     if isinstance(up, ast.BinOp) and isinstance(up.op, ast.Add) and _u(up.left) == off:
                         K_slice = ctx.const(ef, up.right, None)
-    ck.check("C16.K4", K_step == K_slice == 255, "encoder: chunk step = slice width = 255", f"{ctx.fkey(ef)}:chunk", f"TLVStruct.encode chunks by step {K_step} / slice width {K_slice} (TLV8: 255)", ef.loc())
+    if K_step is None:
+        # the consuming form: `while len(v) > K: emit v[:K]; v = v[K:]` and the remainder after the loop
+        for n in ecfg.nodes:
+            if n.kind != "test" or not any(fr[0] == "loop" for fr in n.frames) and not isinstance(n.ast, ast.While):
+                continue
+            cp = compare_parts(n.exprs[0])
+            if not (cp and cp[1] == "Gt" and isinstance(cp[0], ast.Call) and isinstance(cp[0].func, ast.Name) and cp[0].func.id == "len" and len(cp[0].args) == 1
+                    and isinstance(cp[0].args[0], ast.Name)):
+                continue
+            v, K_test = cp[0].args[0].id, ctx.const(ef, cp[2], None)
+            takes = {ctx.const(ef, x.slice.upper, None) for x in walk_own(ef.node) if isinstance(x, ast.Subscript) and isinstance(x.slice, ast.Slice)
+                     and isinstance(x.value, ast.Name) and x.value.id == v and x.slice.lower is None and x.slice.upper is not None}
+            advs = {ctx.const(ef, x.value.slice.lower, None) for x in walk_own(ef.node) if isinstance(x, ast.Assign) and len(x.targets) == 1 and isinstance(x.targets[0], ast.Name)
+                    and x.targets[0].id == v and isinstance(x.value, ast.Subscript) and isinstance(x.value.slice, ast.Slice) and isinstance(x.value.value, ast.Name)
+                    and x.value.value.id == v and x.value.slice.upper is None and x.value.slice.lower is not None}
+            if len(takes) == 1 and len(advs) == 1 and isinstance(K_test, int):
+                K_slice, K_step = next(iter(takes)), next(iter(advs))
+                ck.check("C16.K4", K_test == K_step, "encoder: a fragment is split off while more than the fragment size is left", f"{ctx.fkey(ef)}:chunk-loop-test",
+                         f"TLVStruct.encode splits fragments of {K_step} bytes off while more than {K_test} bytes are left", ctx.loc(ef, n))
+    if K_step is None and K_slice is None:
+        ck.unknown("C16.K4", "TLVStruct.encode: the fragmentation loop was not recognised (neither range(0, len, K) nor while len > K): fragment size not decided", ef.loc())
+    else:
+        ck.check("C16.K4", K_step == K_slice == 255, "encoder: chunk step = slice width = 255", f"{ctx.fkey(ef)}:chunk", f"TLVStruct.encode chunks by step {K_step} / slice width {K_slice} (TLV8: 255)", ef.loc())
     # decoder: continuation trigger length == 255
     itf = ctx.func(f"{M}.tlv_iterator")
     icfg = ctx.cfg(itf.qualname)
@@ -288,7 +310,7 @@ def _k4(ctx: Context, ss, ser, des) -> None:
                     pass
                 if any(isinstance(w, ast.While) and any(n.exprs[0] is y for y in ast.walk(w.test)) for w in ast.walk(itf.node)):
                     trig = ctx.const(itf, cp[2], None)
-    ck.check("C16.K4", trig == 255 == K_step, "decoder: a value continues exactly after a 255-byte fragment", f"{ctx.fkey(itf)}:continuation", f"tlv_iterator continues a value when length == {trig}; the encoder fragments at {K_step}", itf.loc())
+    ck.check("C16.K4", trig == 255 and K_step in (255, None), "decoder: a value continues exactly after a 255-byte fragment", f"{ctx.fkey(itf)}:continuation", f"tlv_iterator continues a value when length == {trig}; the encoder fragments at {K_step}", itf.loc())
     # declaration order: for f in fields(self)
     order = any(n.kind == "for_iter" and isinstance(n.ast.iter, ast.Call) and ctx.resolve_name(ef, n.ast.iter.func) == "dataclasses.fields" and _u(n.ast.iter.args[0]) == "self" for n in ecfg.nodes)
     ck.check("C16.K4", order, "fields are emitted in declaration order (dataclasses.fields(self))", f"{ctx.fkey(ef)}:order", "TLVStruct.encode no longer iterates dataclasses.fields(self)", ef.loc())
@@ -474,13 +496,18 @@ def _t1_iterator(ctx: Context) -> None:
         for t in cfg.nodes:
             if t.kind != "test" or t.id not in live:
                 continue
-            cp = compare_parts(t.exprs[0], left=lambda z: not (isinstance(z, ast.Call) and isinstance(z.func, ast.Name) and z.func.id == "len"))
+            cp = compare_parts(t.exprs[0])
             if cp is None:
                 continue
             l, op, r = cp
-            if not (isinstance(r, ast.Call) and isinstance(r.func, ast.Name) and r.func.id == "len" and len(r.args) == 1 and A.value(t, r.args[0]) == BUF):
-                continue
-            if A.value(t, l) != want:
+            # by value: `end = len(buf)` kept in a local is the same bound; the index may stand on either side
+            LENV = AV.atom(("len", BUF))
+            lv, rv = A.value(t, l), A.value(t, r)
+            if rv == LENV and lv == want:
+                pass
+            elif lv == LENV and rv == want:
+                op = {"Lt": "Gt", "Gt": "Lt", "LtE": "GtE", "GtE": "LtE"}.get(op, op)
+            else:
                 continue
             # the same value at the test and at the read: nothing it is built from changes in between
             if t.id != n.id and any(not A.unchanged(w, t.id, n.id, frozenset({t.id})) for w in vars_in):
@@ -511,8 +538,11 @@ def _t1_iterator(ctx: Context) -> None:
     for n, x in peek_reads:
         guarded(n, x, "next fragment's type byte (look-ahead)", "peek-bounds")
     ck.require_min(R, "type-byte reads", len(type_reads), 1)
-    ck.check(R, bool(peek_reads), "fragments of one item are recognised by looking at the next TLV's type byte", f"{fk}:same-type",
-             "tlv_iterator no longer looks at the type byte of the TLV that follows a full fragment: fragments of a long value are not joined", f.loc())
+    if type_reads:
+        ck.check(R, bool(peek_reads), "fragments of one item are recognised by looking at the next TLV's type byte", f"{fk}:same-type",
+                 "tlv_iterator no longer looks at the type byte of the TLV that follows a full fragment: fragments of a long value are not joined", f.loc())
+    else:
+        ck.unknown(R, "tlv_iterator: the header bytes are not read by subscripts of the buffer in this function (a helper reads them?): not decided", f.loc())
 
     # ---- the look-ahead byte is compared with the item's type
     for n, x in peek_reads:
